@@ -191,8 +191,13 @@ class Loop:
     for-loop over a symbolic sequence). variant(c, L): Int term."""
 
     def __init__(self, inv, variant=None, havoc_fields=(), kinds=None, note=None,
-                 havoc_hook=None):
+                 havoc_hook=None, early_exit=False):
         self.havoc_hook = havoc_hook
+        # the per-iteration obligations speak about the passes that happen; that the loop is not
+        # left early (break / return from the body) is an obligation of its own unless the
+        # contract says leaving early is part of the function (and then says what that means
+        # in its postconditions)
+        self.early_exit = early_exit
         self.inv = inv
         self.variant = variant
         self.havoc_fields = tuple(havoc_fields)
@@ -420,8 +425,14 @@ class Loop:
                                 eng.oblige(st3, 'loop%d.variant' % ordinal, 'variant',
                                            z3.And(var0 >= 0, v1 < var0), s)
                         elif bo[0] == 'break':
+                            if not self.early_exit:
+                                eng.oblige(bo[1], 'loop%d.not-left-early' % ordinal, 'not-left-early',
+                                           z3.BoolVal(False), s)
                             outs.append(('next', bo[1]))
                         else:
+                            if bo[0] == 'ret' and not self.early_exit:
+                                eng.oblige(bo[1], 'loop%d.not-left-early' % ordinal, 'not-left-early',
+                                           z3.BoolVal(False), s)
                             outs.append(bo)
         return outs
 
